@@ -530,8 +530,27 @@ DualOK(e) ==
      /\ Sub("same_bytes", e.dual.differing = <<>>)
      /\ Sub("same_events", e.dual.sameEvents)
 
+(* C17: a two-hop swap equals its two single swaps with a matching intermediate amount.  The harness
+   executes, on copies of the bank, the two-hop and the two single swaps (second leg's input := first
+   leg's realised output; exact-out: first leg's output := second leg's realised input) and
+   compares every account of the two banks.                                                     *)
+C17TwoHop(pre, e, post) ==
+  LET th == e.twohop
+      paid == 0 -- Delta(pre, post, th.acctIn)
+      got  == Delta(pre, post, th.acctOut)
+  IN th.present =>
+     /\ Sub("both_legs_succeed_alone", th.s1.ok /\ th.s2.ok)
+     /\ Sub("intermediate_amounts_match", th.s1.out \doteq th.s2.in)
+     /\ Sub("same_state_as_single_swaps", th.differing = <<>>)
+     /\ Sub("pays_first_leg_input", th.distinct => paid \doteq th.s1.in)
+     /\ Sub("receives_second_leg_output", th.distinct => got \doteq th.s2.out)
+     /\ Sub("intermediate_nets_to_zero", th.distinct => Delta(pre, post, th.acctMid) \doteq 0)
+     /\ Sub("threshold", IF e.args.exactIn THEN e.args.threshold \preceq got ELSE paid \preceq e.args.threshold)
+     /\ Sub("amount_bound", IF e.args.exactIn THEN paid \preceq e.args.amount ELSE got \preceq e.args.amount)
+
 (* the per-event transition *)
 IxOK(pre, e, post) ==
+  /\ Chk("C17", "two_hop", C17TwoHop(pre, e, post))
   /\ Chk("C04", "authorised", Guard(pre, e))
   /\ Chk("C15", "accounts_belong", Guard(pre, e))
   /\ Chk("C12", "anchor_equals_pinocchio", DualOK(e))
